@@ -5,7 +5,7 @@
 (* recorded from the real transport (TcpObs).                                *)
 EXTENDS Integers, Sequences, FiniteSets
 
-T0 == [k |-> "", env |-> 0, res |-> "", used |-> 0, segs |-> <<>>]
+T0 == [k |-> "", env |-> 0, res |-> "", used |-> 0, asked |-> 0, segs |-> <<>>]     \* asked: the largest single read a receive requested
 
 EnvsOf(obs, kind, res) ==
   LET s == SelectSeq(obs, LAMBDA e : e.k = kind /\ e.res = res)
@@ -49,7 +49,7 @@ C12_WireClean(c, obs) ==
 
 (* C16: no single receive takes more than the read limit from the connection *)
 C16_PerReceiveBudget(c, obs) ==
-  c.L > 0 => \A i \in 1 .. Len(obs) : obs[i].k = "recv" => obs[i].used <= c.L
+  c.L > 0 => \A i \in 1 .. Len(obs) : obs[i].k = "recv" => (obs[i].used <= c.L /\ obs[i].asked <= c.L)
 
 (* C16: an envelope larger than twice the limit is never accepted *)
 C16_RejectHuge(c, obs) ==
